@@ -116,6 +116,7 @@ Inductive op :=
 | OpFillContiguous (r : rect) (cs : list Z)
 | OpClear (c : Z)
 | OpSetPixel (p : point) (v : option Z)
+| OpSetPixels (l : list point) (v : option Z)
 | OpSetAllowOverdraw (b : bool)
 | OpSetAllowOob (b : bool).
 
@@ -127,6 +128,7 @@ Definition apply_op (d : display) (o : op) : result display :=
   | OpFillContiguous r cs => fill_contiguous d r cs
   | OpClear c => clear d c
   | OpSetPixel p v => set_pixel d p v
+  | OpSetPixels l v => set_pixels d l v
   | OpSetAllowOverdraw b => Ok (set_allow_overdraw d b)
   | OpSetAllowOob b => Ok (set_allow_oob d b)
   end.
